@@ -16,7 +16,7 @@ RULE = ('queries {finite flat facts; a fact whose second argument is a 60-elemen
         '(infinitely many answers, each deeper); left recursion lp(X) :- lp(X). lp(a). (diverges before any answer); a '
         'rule with a deep failing branch between answers; registered Python predicates whose clean-up (finally) code needs 0, 3, 12 or 30 nested calls, queried directly and through call/1; predicates answered from two sources (dynamic facts followed by compiled clauses, dynamic facts followed by a Python predicate)} x EVERY recursion_limit from 8 to 400 (each value moves the '
         'point at which the limit strikes; quick: every value up to 89, then every 7th) x projection functions {identity, observe the variables, '
-        'raise ValueError at the k-th answer for k=1..5, raise RuntimeError at the 2nd, raise StopIteration at the 2nd, run a bounded sub-query on the same engine for every answer (nested evaluate_bounded, inner limit 150 / 500)}, '
+        'raise ValueError at the k-th answer for k=1..5, raise RuntimeError at the 2nd, raise StopIteration at the 2nd, raise KeyboardInterrupt at the 1st / SystemExit at the 2nd / an own BaseException subclass at the 2nd, run a bounded sub-query on the same engine for every answer (nested evaluate_bounded, inner limit 150 / 500)}, '
         'called from a shallow stack, in every 5th case while another query of the same engine is suspended at its first answer (it must be undisturbed afterwards); plus bounds ABOVE the interpreter\'s own limit (1200, 3000, 10000) for nat/1, ev/1, a compiled recursion over a dynamic base fact and len/2 of a 700-element list, with the identity projection and projections raising at answer 1, 200, 450, 900, 1400 (each call in a forked child: a dying interpreter is a violation); plus, for 8 queries at every limit 8..63, the same call in a quiet process and in one with every logger at DEBUG, a stream handler attached and warnings turned into errors, which must return the same. Checked: no RecursionError escapes; the result is a prefix of RefProlog\'s answer '
         'sequence (projected), and the whole sequence when the limit exceeds the measured stack depth of an unbounded '
         'run by a margin; afterwards sys.getrecursionlimit() is the old value and every live engine variable (weak set '
@@ -109,6 +109,10 @@ class ProjErr(ValueError):
     pass
 
 
+class ProjStop(BaseException):
+    pass
+
+
 def projections(obsfn):
     """-> list of (name, factory) ; factory() -> (projection function, state)"""
     out = [('identity', lambda: (lambda x: x)), ('value', lambda: (lambda x: obsfn()))]
@@ -145,6 +149,22 @@ def projections(obsfn):
         return proj
     out.append(('runtimeerror@2', fac_rt))
     out.append(('stopiteration@2', fac_si))
+
+    def fac_be(cls, k):
+        def fac():
+            cnt = [0]
+
+            def proj(x):
+                cnt[0] += 1
+                if cnt[0] == k:
+                    raise cls('projection stops the process at answer %d' % k)
+                return obsfn()
+            return proj
+        return fac
+    # exceptions that are NOT derived from Exception (an interrupt, an exit request, an application's own)
+    out.append(('keyboardinterrupt@1', fac_be(KeyboardInterrupt, 1)))
+    out.append(('systemexit@2', fac_be(SystemExit, 2)))
+    out.append(('baseexception@2', fac_be(ProjStop, 2)))
     return out
 
 
@@ -250,6 +270,10 @@ def _one_call(yp, qname, goal, limit, pname, exp, need_depth):
         sys.setrecursionlimit(old)
         return ('recursion-error-escapes', 'RecursionError escaped from evaluate_bounded: %r' % (e,)), None
     except ProjErr as e:
+        raised = e
+    except (KeyboardInterrupt, SystemExit, ProjStop) as e:
+        if not pname.split('@')[0] in ('keyboardinterrupt', 'systemexit', 'baseexception'):
+            raise
         raised = e
     except BaseException as e:  # noqa: BLE001
         now = sys.getrecursionlimit()
